@@ -28,14 +28,18 @@ def main():
              ("tag", 1), ("back.other.tag2", 1), ("m.ref.b", 0)]
     chain_cases = [{"atoms": [a], "op": "and"} for a in atoms]
     chain_cases += [{"atoms": [a, b], "op": op} for a in atoms for b in atoms if a != b for op in ("and", "or")]
+    satoms = ["in1", "in1t", "in2", "inC", "inE", "eqC", "neC1", "c1", "a0", "b1"]
+    chain_cases += [{"satoms": [a], "op": "and"} for a in satoms]
+    chain_cases += [{"satoms": [a, b], "op": op} for a in satoms[:8] for b in satoms if a != b for op in ("and", "or")]
     n_main = len(cases)
     results = replay("eqlsql", cases + chain_cases)
     ctx.replayed = len(cases) + len(chain_cases)
     for c, r in zip(chain_cases, results[n_main:]):
         o = r["chains"]
-        key = ["chains", c["atoms"], c["op"]]
-        ctx.case(key, len(c["atoms"]) > 1 and "rejected" not in o, sample={"chain_atoms": c["atoms"], "op": c["op"], "memory": o.get("memory"),
-                                                                          "sql": o.get("sql")})
+        atoms_ = c.get("atoms") or c.get("satoms")
+        key = ["chains" if "atoms" in c else "strings", atoms_, c["op"]]
+        ctx.case(key, len(atoms_) > 1 and "rejected" not in o, sample={"family": key[0], "atoms": atoms_, "op": c["op"], "memory": o.get("memory"),
+                                                                      "sql": o.get("sql")})
         if "rejected" in o or "memory_error" in o:
             continue
         if "sql_error" in o or o.get("sql") != o.get("memory"):
